@@ -107,11 +107,11 @@ theorem C06_world_ff_result (kind : TravKind) (uni : Option VId) (start : VId) (
 theorem C08_world_first_match (uni : Option VId) (start : VId) (attr val : Nat)
     (ht : TotalAt w F 0 2 none) (hs : start < w.nV) (hu : memberOf w uni start) :
     search w F .bfs uni start attr val =
-      .inr ((traverse w F (fun _ => true) .bft uni start 0 2 none).1.find? (fun x => (w.attrs x).contains (attr, val))) ∧
+      .inr ((traverse w F (fun _ => true) .bft uni start 0 2 none).1.find? (hasAttrVal w attr val)) ∧
     search w F .dfsr uni start attr val =
-      .inr ((traverse w F (fun _ => true) .dftr uni start 0 2 none).1.find? (fun x => (w.attrs x).contains (attr, val))) ∧
+      .inr ((traverse w F (fun _ => true) .dftr uni start 0 2 none).1.find? (hasAttrVal w attr val)) ∧
     search w F .dfsi uni start attr val =
-      .inr ((traverse w F (fun _ => true) .dfti uni start 0 2 none).1.find? (fun x => (w.attrs x).contains (attr, val))) := by
+      .inr ((traverse w F (fun _ => true) .dfti uni start 0 2 none).1.find? (hasAttrVal w attr val)) := by
   refine ⟨?_, ?_, ?_⟩
   · rw [traverse_true_eq_pure w F .bft uni start 0 2 none ht hs hu]
     exact search_eq_find w F .bfs uni start attr val ht hs hu
@@ -132,6 +132,20 @@ theorem C06_world_preflight (kind : TravKind) (u : VId) (start : VId) (dir unk :
   have g2 : (!(w.members u).contains start) = true := by simpa using hns
   simp only [traverse, g1, g2]
   simp
+
+/-- a sought value that compares equal to everything (value class 6) matches exactly the vertices
+    that HAVE the attribute: a vertex lacking it is never returned, whatever the value's `__eq__` says -/
+theorem C08_any_value_needs_attribute (attr : Nat) (x : VId) :
+    hasAttrVal w attr 6 x = (w.attrs x).any (fun p => p.1 == attr) ∧
+    ((w.attrs x).all (fun p => p.1 != attr) → ∀ val, hasAttrVal w attr val x = false) := by
+  constructor
+  · simp [hasAttrVal]
+  · intro h val
+    simp only [hasAttrVal, List.any_eq_false]
+    intro p hp
+    have := List.all_eq_true.1 h p hp
+    simp at this
+    simp [this]
 
 end TO
 end EG
